@@ -44,7 +44,15 @@ def _searched_kinds(repo, g, marker, kinds):
     guards enclosing the append - are evaluated for every kind the code mentions."""
     funcs = [g] + [h for h in inline.callees(repo, g) if h.module is g.module]
 
+    flags = {}   # boolean locals bound to a kind test: `is_attribute = sib.type == "attribute_item"`
+    for f_ in funcs:
+        for a_ in ast.walk(f_.node):
+            if isinstance(a_, ast.Assign) and len(a_.targets) == 1 and isinstance(a_.targets[0], ast.Name) and isinstance(a_.value, (ast.Compare, ast.BoolOp, ast.UnaryOp)):
+                flags[a_.targets[0].id] = a_.value
+
     def ev(t, k):
+        if isinstance(t, ast.Name) and t.id in flags:
+            return ev(flags[t.id], k)
         if isinstance(t, ast.Compare) and len(t.ops) == 1 and isinstance(t.left, ast.Attribute) and t.left.attr == "type":
             v = repo.fold(g.module, t.comparators[0])
             vs = {v} if isinstance(v, str) else set(v) if isinstance(v, (tuple, list, set, frozenset)) else None
